@@ -1,11 +1,20 @@
 /-
-  PrtpyProofs.SNPOpt — optimality (C02) of sequential number partitioning (`snp`), relative to the optimality
-  of the 2-way complete Karmarkar–Karp sub-routine (`Ckk2Optimal`, proved elsewhere).
+  PrtpyProofs.SNPOpt — optimality (C02) of sequential number partitioning (`snp`, any number of bins) and of
+  recursive number partitioning (`rnp`, at most four bins), relative to two facts about the 2-way complete
+  Karmarkar–Karp sub-routine that are stated here as hypotheses and proved elsewhere:
 
-  The argument is the window argument of Korf / Schreiber / Moffitt: the smallest of the `cur` bins still to
-  be formed in any completion that beats the incumbent has its sum inside the window
-  `[(t − (cur−1)·D)/cur, t/cur]`, hence is enumerated by the inclusion/exclusion tree, whatever the moment at
-  which the (moving) lower bound is read.
+  * `Ckk2Optimal`     — `ckk … 2 …` returns a 2-way partition of minimum difference;
+  * `CkkGenComplete`  — the 2-way generator `ckkGen … 2 … (some d)` yields every 2-way split of difference `< d`
+                        (used by `rnp` with four bins only).
+
+  The argument is the window argument of Korf / Schreiber / Moffitt: in any completion of the prior bins that
+  beats the incumbent, the smallest of the `c` bins still to be formed has its sum inside the window
+  `[(t − (c−1)·D)/c, t/c]` (`window_lemma`, `smallest_bin`, `out_of_window`), hence is reached by the
+  inclusion/exclusion tree, whatever the moment at which the moving lower bound is read (`treeFold_reach`), resp.
+  belongs to the list generated with the bound fixed at creation (`rnpRec_odd_opt`).  With two bins left, the
+  2-way split of minimum difference minimises the combined spread with any fixed prior sums (`two_way_spread`).
+
+  Main results: `snp_optimal`, `rnp_optimal` (k ≤ 4); invariants `snpRec_opt`, `rnpRec_odd_opt`, `rnpRec_four_opt`.
 -/
 import Prtpy
 import PrtpyProofs.Part
@@ -109,6 +118,10 @@ theorem two_way_spread {a b a' b' : Nat} (P : List Nat) (ht : a + b = a' + b')
     omega
 
 example : spread ([5, 6] ++ [9, 4]) ≤ spread ([3, 8] ++ [9, 4]) := two_way_spread _ rfl (by decide)
+
+/-- non-vacuity of the window lemma: three sums, the smallest is `4`, none exceeds `4 + 3` -/
+example : 3 * 4 ≤ sumL [6, 4, 7] ∧ sumL [6, 4, 7] ≤ 3 * 4 + 2 * 3 :=
+  window_lemma (ns := [6, 4, 7]) (s := 4) (D := 3) (by decide) (by decide) (by decide)
 
 /-! ### the moving-bound tree reaches every sub-collection that matters -/
 
@@ -802,3 +815,24 @@ example (hckk : Ckk2Optimal (id : Nat → Nat) id) (hgen : CkkGenComplete (id : 
     (by decide) (by decide) (by decide) rfl
 
 end Prtpy.SNPOpt
+
+/-
+Axiom audit (output of `#print axioms` observed with `lake env lean`):
+
+#print axioms Prtpy.SNPOpt.snp_optimal
+  'Prtpy.SNPOpt.snp_optimal' depends on axioms: [propext, Classical.choice, Quot.sound]
+#print axioms Prtpy.SNPOpt.rnp_optimal
+  'Prtpy.SNPOpt.rnp_optimal' depends on axioms: [propext, Classical.choice, Quot.sound]
+#print axioms Prtpy.SNPOpt.snpRec_opt
+  'Prtpy.SNPOpt.snpRec_opt' depends on axioms: [propext, Classical.choice, Quot.sound]
+#print axioms Prtpy.SNPOpt.rnpRec_odd_opt
+  'Prtpy.SNPOpt.rnpRec_odd_opt' depends on axioms: [propext, Classical.choice, Quot.sound]
+#print axioms Prtpy.SNPOpt.rnpRec_four_opt
+  'Prtpy.SNPOpt.rnpRec_four_opt' depends on axioms: [propext, Classical.choice, Quot.sound]
+#print axioms Prtpy.SNPOpt.treeFold_reach
+  'Prtpy.SNPOpt.treeFold_reach' depends on axioms: [propext, Classical.choice, Quot.sound]
+#print axioms Prtpy.SNPOpt.window_lemma
+  'Prtpy.SNPOpt.window_lemma' depends on axioms: [propext, Quot.sound]
+#print axioms Prtpy.SNPOpt.two_way_spread
+  'Prtpy.SNPOpt.two_way_spread' depends on axioms: [propext, Quot.sound]
+-/
